@@ -62,6 +62,7 @@ def check(ctx):
                 ctx.fail("oracle", key, f"table {name} (N={N}) order {order}, no cutoff: {cnt} index tuples with equality pattern {pat} are eliminated (forced to zero)",
                          replay={"tp": tp.tolist(), "order": order, "pattern": list(pat), "count": cnt}, has_input=True)
     pair_model_span(ctx, np.random.default_rng(ctx.seed + 3))
+    character_count(ctx, np.random.default_rng(ctx.seed + 4))
     # ---- dense reference
     cells = [("mono_P", (1, 1, 1)), ("tri2_P1", (1, 1, 1)), ("tri1", (2, 1, 1)), ("hcp", (1, 1, 1)), ("tri3_P1", (1, 1, 1)), ("tri2_obtuse", (1, 1, 1)), ("ortho1", (2, 1, 1)), ("hex1", (1, 1, 2))]
     if not ctx.quick:
@@ -173,3 +174,50 @@ def pair_model_span(ctx, rng):
             if not resid <= 1e-9:
                 ctx.fail("oracle", f"C04/oracle/pair-model/order{order}", f"{sc['name']} (N={N}) order {order}: the order-{order} derivative tensor of a periodic pair-potential energy (admissible by construction) is not in the span of the {B.shape[1]} basis vectors (relative residual {resid:.2e})",
                          replay={"cell": sc["name"], "lattice": np.asarray(sc["lattice"]).tolist(), "positions": np.asarray(sc["positions"]).tolist(), "numbers": [int(z) for z in sc["numbers"]], "order": order, "residual": resid}, has_input=True)
+
+
+def character_count(ctx, rng):
+    """Exact dimension of the space of index-permutation symmetric, space-group invariant tensors (no cutoff, before the sum rule)
+    by the Burnside / cycle-index formula, for supercells of any size:  dim = 1/|G| sum_g Z_{S_n}(t_1(g), ..., t_n(g)),
+    t_k(g) = trace((P_g x R_g)^k) = #{atoms fixed by g^k} * trace(R_g^k).  Compared with the number of columns of the
+    compression matrix (= c_pt c_rpt), orders 2 and 3 (order 4 is under the known finding)."""
+    import spglib
+    from symfc import Symfc
+
+    cells = [("tri2_P1", (3, 1, 1), True), ("p4_general", (1, 1, 1), True), ("hcp", (3, 3, 1), True), ("bcc_conv", (3, 3, 2), False), ("sc1", (4, 4, 4), False),
+             ("wurtzite", (2, 2, 1), True), ("mono_P", (2, 1, 2), True)]
+    if not ctx.quick:
+        cells += [("fcc_conv", (2, 2, 2), False), ("nacl_prim", (3, 3, 2), True), ("rutile_like", (1, 1, 2), True), ("ortho_C", (2, 2, 1), True), ("p3_general", (2, 2, 1), True), ("si_prim", (2, 2, 2), True)]
+    for cname, diag, shuffle in cells:
+        sc = make_supercell(base_cells()[cname], diag, rng=rng, shuffle=shuffle)
+        N = len(sc["numbers"])
+        L = np.asarray(sc["lattice"], float)
+        ops = spglib.get_symmetry((sc["lattice"], sc["positions"], sc["numbers"]))
+        rots, trans = np.asarray(ops["rotations"]), np.asarray(ops["translations"])
+        tk = []
+        for r, t in zip(rots, trans):
+            perm = np.asarray(atom_perm_by_matching(L, sc["positions"], sc["numbers"], r, t))
+            R = L.T @ r @ np.linalg.inv(L.T)
+            pk, Rk, row = np.arange(N), np.eye(3), []
+            for _ in range(3):
+                pk = perm[pk]
+                Rk = R @ Rk
+                row.append(float((pk == np.arange(N)).sum()) * float(np.trace(Rk)))
+            tk.append(row)
+        tk = np.array(tk)
+        t1, t2, t3 = tk[:, 0], tk[:, 1], tk[:, 2]
+        dims = {2: float(np.mean((t1 ** 2 + t2) / 2)), 3: float(np.mean((t1 ** 3 + 3 * t1 * t2 + 2 * t3) / 6))}
+        for order in (2, 3):
+            if N ** order * 3 ** order > 2_000_000:
+                continue
+            expect = dims[order]
+            if abs(expect - round(expect)) > 1e-6:
+                ctx.notes.append(f"character count for {sc['name']} order {order} is not an integer ({expect}); skipped")
+                continue
+            b = Symfc(atoms_of(sc)).compute_basis_set(orders=[order]).basis_set[order]
+            got = int(b.compact_compression_matrix.shape[1])
+            ctx.case({"character_count": sc["name"], "order": order, "N": N, "group_order": int(len(rots)), "expected": int(round(expect)), "got": got}, nontrivial=True)
+            ctx.count(f"character-count-order{order}")
+            if got != int(round(expect)):
+                ctx.fail("oracle", f"C04/oracle/character-count/order{order}", f"{sc['name']} (N={N}, {len(rots)} operations) order {order}: the space of permutation-symmetric, space-group invariant tensors has dimension {int(round(expect))} (Burnside count), the compression matrix c_pt c_rpt has {got} columns",
+                         replay={"cell": sc["name"], "lattice": L.tolist(), "positions": np.asarray(sc["positions"]).tolist(), "numbers": [int(z) for z in sc["numbers"]], "order": order, "expected": int(round(expect)), "got": got}, has_input=True)
